@@ -26,7 +26,7 @@ const (
 	sTry
 	sWith
 	sCall
-	sPad // id comment-only lines: no effect, but the next statement is that much further down
+	sPad  // id comment-only lines: no effect, but the next statement is that much further down
 	sWide // one line that compiles to about 3*id bytes of code: no effect, but the next instruction is that much further on
 )
 
@@ -780,7 +780,9 @@ func c02Run(rc *core.RunCtx) {
 		wraps := []func(t *stmt) []*stmt{
 			func(t *stmt) []*stmt { return []*stmt{{k: sFor, body: []*stmt{t, {k: sLog}}}, {k: sLog}} },
 			func(t *stmt) []*stmt { return []*stmt{{k: sWhile, body: []*stmt{t, {k: sLog}}}, {k: sLog}} },
-			func(t *stmt) []*stmt { return []*stmt{{k: sFor, body: []*stmt{t}, orelse: []*stmt{{k: sLog}}, hasElse: true}} },
+			func(t *stmt) []*stmt {
+				return []*stmt{{k: sFor, body: []*stmt{t}, orelse: []*stmt{{k: sLog}}, hasElse: true}}
+			},
 			func(t *stmt) []*stmt {
 				return []*stmt{{k: sFor, body: []*stmt{{k: sWith, mode: "false", body: []*stmt{t}}, {k: sLog}}}, {k: sLog}}
 			},
